@@ -123,8 +123,26 @@ print(json.dumps(out))
         env["PYTHONHASHSEED"] = seed
         r = subprocess.run([common.PY, "-W", "ignore", "-c", code], input=json.dumps(docs), capture_output=True, text=True, env=env)
         return json.loads(r.stdout) if r.returncode == 0 else None
-    with ThreadPoolExecutor(max_workers=len(seeds)) as ex:
+    with ThreadPoolExecutor(max_workers=len(seeds) + 1) as ex:
+        fut_rev = ex.submit(lambda: None)
         outs = list(ex.map(one, seeds))
+    # the same documents in REVERSED order in one more process: what a process has validated before (module-level
+    # caches, memoised helpers, one-shot iterators in the specification data) must not change a document's result
+    def one_reversed():
+        env = ctx.impl_env()
+        env["PYTHONHASHSEED"] = "0"
+        r = subprocess.run([common.PY, "-W", "ignore", "-c", code], input=json.dumps(docs[::-1]), capture_output=True, text=True, env=env)
+        return json.loads(r.stdout)[::-1] if r.returncode == 0 else None
+    rev = one_reversed()
+    if rev is not None and outs[0] is not None:
+        nrev = 0
+        for i, d in enumerate(docs):
+            if rev[i] != outs[0][i] and nrev < 2:
+                nrev += 1
+                ctx.violation({"what": "the error list of one document depends on which documents the same interpreter process validated before (documents in reversed order)",
+                               "document": d, "validated_in_given_order": outs[0][i][1][:4] if outs[0][i][0] == "ok" else outs[0][i],
+                               "validated_in_reversed_order": rev[i][1][:4] if rev[i][0] == "ok" else rev[i],
+                               "documents_validated_before_it_in_given_order": docs[max(0, i - 3):i]})
     if any(o is None for o in outs):
         ctx.notes.append("across_processes: a runner failed")
         return 0
